@@ -10,6 +10,12 @@ regenerated lock table; the lines handled here connect the harness to that table
   really ran, replayed as lock-event programs from the table on the model's transition system
   under strict writer preference with 3 pseudo-random schedules: the real threads finished, the
   model must not get stuck either (and the programs must pass `respectsOrder`);
+* `conc selftest <which> => hang|finished`: tiny two-thread programs run by the harness on the real
+  parking_lot lock objects of a Chain (inversion, ordered control, read-after-read with and without a
+  writer arriving in between) against exhaustive exploration of the model — this is the check that
+  the lock semantics assumed by the model (non re-entrant, waiting writer blocks readers) are the
+  real ones;
+* `conc tablecheck => ok`: names the ops violating the decided table obligations, if any;
 * the final (head, unspent set) of a concurrent run is compared by the `chain` domain
   (`chain obs <twin> => …`), not here. -/
 namespace GV.Drv.ConcD
@@ -34,8 +40,32 @@ def simAll (progs : List (List LockEv)) (seed : Nat) : String :=
     | [] => "finished"
     | i :: _ => s!"model-stuck-thread-{i}"
 
+/-- names of the ops of the regenerated table that violate one of the decided obligations
+(the same predicates as the `table_*` theorems of Props/C17; here only to NAME the offending
+function in the check's report when such a theorem stops checking) -/
+def tableViolations : String :=
+  let bad (f : List LockEv → Bool) := (GV.Gen.lockTable.filter (fun e => !f e.2)).map (·.1)
+  let o := bad respectsOrder
+  let c := bad commitsUnderWriteLock
+  let k := bad callbacksUnlocked
+  if o.isEmpty && c.isEmpty && k.isEmpty then "ok"
+  else s!"violations:order{o};commit-outside-write-lock{c};callback-under-lock{k}"
+
 def handle (st : St) (args : List String) (impl : String) : St × Verdict :=
   match args with
+  | ["tablecheck"] => (st, cmpModel tableViolations impl)
+  | ["selftest", which] =>
+    -- the harness ran these tiny programs on the REAL lock objects of a Chain (through the Arcs of
+    -- Chain::txhashset()/header_pmmr()); the model says whether a deadlock is reachable
+    let progs : Option (List (List LockEv)) := match which with
+      | "inversion" => some [[.acq .ts .W, .acq .hp .W, .rel .hp, .rel .ts], [.acq .hp .W, .acq .ts .W, .rel .ts, .rel .hp]]
+      | "ordered" => some [[.acq .hp .W, .acq .ts .W, .rel .ts, .rel .hp], [.acq .hp .W, .acq .ts .W, .rel .ts, .rel .hp]]
+      | "reread" => some [[.acq .ts .R, .acq .ts .R, .rel .ts], [.mark .callback, .acq .ts .W, .rel .ts]]
+      | "reread-nowriter" => some [[.acq .ts .R, .acq .ts .R, .rel .ts], [.acq .hp .W, .rel .hp]]
+      | _ => none
+    match progs with
+    | some ps => (st, cmpModel (if deadlockReachable 64 (init ps) then "hang" else "finished") impl)
+    | none => (st, .unknown)
   | ["opclass", op] =>
     match GV.Gen.lockTable.lookup op with
     | some p => (st, cmpModel (opClass p) impl)
